@@ -679,6 +679,40 @@ def _unique(ar, return_index=False, return_inverse=False, return_counts=False, a
     return vals
 
 
+@implements(np.outer)
+def _outer(a, b, out=None):
+    a, b = as_sym(a).ravel(), as_sym(b).ravel()
+    return a[:, None] * b[None, :]
+
+
+def _absq(x):
+    x = Q.lift(x)
+    return Q.ite(x._lt(Q.lift(0)), -x, x)
+
+
+def _isclose_elem(a, b, rtol, atol, equal_nan):
+    a, b = Q.lift(a), Q.lift(b)
+    tol = _absq(b) * rtol + atol
+    close = ((a - b) <= tol) & ((b - a) <= tol)
+    if equal_nan:
+        close = close | (a.isnan() & b.isnan())
+    return close
+
+
+@implements(np.isclose)
+def _isclose(a, b, rtol=1e-05, atol=1e-08, equal_nan=False):
+    f = np.frompyfunc(lambda x, y: _isclose_elem(x, y, rtol, atol, equal_nan), 2, 1)
+    return _wrap(f(_base(a), _base(b)))
+
+
+@implements(np.allclose)
+def _allclose(a, b, rtol=1e-05, atol=1e-08, equal_nan=False):
+    r = _isclose(a, b, rtol, atol, equal_nan)
+    if isinstance(r, np.ndarray):
+        return bool(as_sym(r).all()) if r.dtype == object else bool(r.all())
+    return bool(r)
+
+
 @implements(np.array_equal)
 def _array_equal(a, b, **kw):
     a, b = as_sym(a), as_sym(b)
